@@ -165,6 +165,19 @@ theorem counterexample_optional_immutable_set :
         | _, _ => false) = true := by
   decide
 
+/-- `Optional[Set[X]]` with a mutable Set is inside the proved region (both option orders): the plain
+    set the trusted instance holds is what the Set option validates and serializes -/
+def cxOptSet : FieldDecl :=
+  mkCls "A" ["m"] [("m", .anyOf [.setOf false (.integer {}) {}, .noneF]), ("n", .anyOf [.noneF, .setOf false (.enumCls "Color" ["RED", "BLUE"]) {}])]
+theorem trusted_optional_set_example :
+    eligible noMappers cxOptSet = true ∧ tsafeCls cxOptSet = true
+    ∧ plainDoc {} cxOptSet (.dict [(.str "m", .list [.int 1, .int 1, .int 2]), (.str "n", .list [.str "RED"])]) = true
+    ∧ (match deserialize exO {} cxOptSet (.dict [(.str "m", .list [.int 1, .int 1, .int 2]), (.str "n", .list [.str "RED"])]),
+             deserializeTrusted noMappers exO {} cxOptSet (.dict [(.str "m", .list [.int 1, .int 1, .int 2]), (.str "n", .list [.str "RED"])]) with
+        | .ok x, .ok y => eqv x y && isOk (serialize exO cxOptSet y)
+        | _, _ => false) = true := by
+  decide
+
 /-- finding `unnormalised:boolean-string`: the regular path turns 'True' into `True` -/
 def cxBool : FieldDecl := mkCls "A" ["m"] [("m", .boolean)]
 theorem counterexample_boolean_string :
